@@ -127,6 +127,29 @@ func c07Layout(repo, out string, args []string) error {
 		}
 		return true
 	})
+	// every binary.Read must be the init of `if err := binary.Read(…); err != nil { return nil, … }`
+	checked := []string{}
+	for _, st := range rd.Body.List {
+		is, ok := st.(*ast.IfStmt)
+		if !ok || is.Init == nil {
+			continue
+		}
+		as, ok := is.Init.(*ast.AssignStmt)
+		if !ok || len(as.Rhs) != 1 {
+			continue
+		}
+		call, ok := as.Rhs[0].(*ast.CallExpr)
+		if !ok || c07Src(fset, call.Fun) != "binary.Read" {
+			continue
+		}
+		verdict := "unchecked"
+		if c07Src(fset, is.Cond) == "err != nil" && len(is.Body.List) == 1 {
+			if r, ok := is.Body.List[0].(*ast.ReturnStmt); ok && len(r.Results) == 2 && c07Src(fset, r.Results[0]) == "nil" {
+				verdict = "error returned"
+			}
+		}
+		checked = append(checked, strconv.Quote(c07Src(fset, call.Args[2])+": "+verdict))
+	}
 	wr := fn(wf, "Write")
 	if wr == nil {
 		return fmt.Errorf("write.go: func Write not found")
@@ -151,6 +174,7 @@ func c07Layout(repo, out string, args []string) error {
 	fmt.Fprintf(&b, "/-- `type Vec struct` (field, Go type), source order -/\ndef vecFields : List (String × String) := %s\n\n", vec)
 	fmt.Fprintf(&b, "/-- `type Triangle struct` (field, Go type), source order -/\ndef triangleFields : List (String × String) := %s\n\n", tri)
 	fmt.Fprintf(&b, "/-- `Read`: every `binary.Read(in, <order>, <target>)` with the declaration of the target, in source order -/\ndef readSteps : List String :=\n  [%s]\n\n", strings.Join(steps, ",\n   "))
+	fmt.Fprintf(&b, "/-- `Read`: what happens to the error of each top-level `if err := binary.Read(…)` -/\ndef readErrors : List String :=\n  [%s]\n\n", strings.Join(checked, ", "))
 	fmt.Fprintf(&b, "/-- `Write`: every `out.Write` / `binary.Write(out, <order>, <value>)`, in source order -/\ndef writeSteps : List String :=\n  [%s]\n\n", strings.Join(wsteps, ",\n   "))
 	b.WriteString("end PolyVerif.Gen.StlLayout\n")
 	return os.WriteFile(out, []byte(b.String()), 0o644)
